@@ -40,7 +40,12 @@ def reads(body, name):
     return any(x.get("k") == "path" and x.get("res") == "local" and x["path"] == name for x, _ in walk(body))
 
 
+TIER = "quick"
+
+
 def run(facts, rep, tier):
+    global TIER
+    TIER = tier
     c = facts.impl
     h, table = find_int_selector(c)
     if not rep.floor("C10.D1", "integer format table (array of 5-tuples)", 1 if table else 0, 1):
@@ -581,7 +586,7 @@ def run_d7_eval(facts, rep, c, h, table, MIN, MAX):
     cands = []
     for st in top_stmts(h):
         if st.get("k") == "let" and st.get("init") is not None and any(x.get("k") == "mcall" and x["name"] == "find_map" for x, _ in walk(st["init"])) \
-                and reads(st["init"], tname) and "Option<" in (c.ty(st["init"].get("ty")) or "") and "String" in (c.ty(st["init"].get("ty")) or ""):
+                and reads(st["init"], tname) and st["pat"].get("k") == "bind" and ("String" in (c.ty(st["init"].get("ty")) or "String")):
             cands.append(st)
     if len(cands) != 1:
         return False
@@ -605,6 +610,17 @@ def run_d7_eval(facts, rep, c, h, table, MIN, MAX):
             cell = "(%s,%s)" % ("Some" if has_min else "None", "Some" if has_max else "None")
             lows = sorted({r_["lo"] for r_ in tab} | {1.0, 0.0, -1.0, 2.0}) if has_min else [None]
             highs = sorted({r_["hi"] for r_ in tab} | {1.0, 100.0, 255.0, 256.0}) if has_max else [None]
+            if TIER == "thorough":
+                # the property's full boundary lattice: every type's MIN and MAX, each +-1 and +-2, 0, +-1, +-2, small and large values
+                lat = set()
+                for r_ in tab:
+                    for b_ in (r_["lo"], r_["hi"]):
+                        lat |= {b_ - 2.0, b_ - 1.0, b_, b_ + 1.0, b_ + 2.0}
+                lat |= {0.0, 1.0, -1.0, 2.0, -2.0, 10.0, 1000.0, 1e6, -1e6, 1e12, -1e12}
+                if has_min:
+                    lows = sorted(lat)
+                if has_max:
+                    highs = sorted(lat)
             bad = None
             for lo in lows:
                 for hi in highs:
